@@ -303,26 +303,26 @@ PacketEnd(s, c, bytes) ==
 NoFrame == [T |-> 0 - 1, act0 |-> 0, act1 |-> 0, midOnly |-> 0, mid |-> 0]
 FrameOr(o, k) == IF k <= Len(o.fr) THEN o.fr[k] ELSE NoFrame
 
-\* the while(1) loop: rem = input still to be buffered, in samples at the internal rate
+\* the while(1) loop: rem = input still to be buffered, in samples at the internal rate.
+\* (Helper operators with parameters instead of LET chains: TLC evaluates a parameter once, a LET body at every use.)
 RECURSIVE Loop(_, _, _, _, _, _, _, _, _, _)
+LoopC(pe, fok, rec, c, pf, av, rem1, bufMax1, tot, cur, o, acc) ==
+  IF rem1 = 0 THEN [s |-> pe.s, ok |-> acc.ok /\ fok, frames |-> Append(acc.frames, rec), out |-> pe.out]
+  ELSE Loop(pe.s, c, pf, av, rem1, bufMax1, tot, cur + 1, o,
+            [acc EXCEPT !.ok = acc.ok /\ fok, !.frames = Append(acc.frames, rec), !.out = pe.out])
+LoopB(fs_, raw, c, pf, av, rem1, bufMax1, tot, cur, o, acc) ==
+  LoopC(IF raw > 0 /\ fs_.s.ch[1].nfe = fs_.s.ch[1].nfpp THEN PacketEnd(fs_.s, c, raw) ELSE [s |-> fs_.s, out |-> raw],
+        fs_.ok, fs_.rec, c, pf, av, rem1, bufMax1, tot, cur, o, acc)
+LoopA(s1, c, pf, av, rem1, bufMax1, tot, cur, o, acc) ==
+  IF s1.ch[1].ibx < s1.ch[1].flen THEN [s |-> s1, ok |-> acc.ok, frames |-> acc.frames, out |-> acc.out]
+  ELSE LoopB(FrameStep(s1, c, pf, av, tot, cur, FrameOr(o, Len(acc.frames) + 1), o.lbrrBits), IF pf # 0 THEN 0 ELSE o.bytes,
+             c, pf, av, rem1, bufMax1, tot, cur, o, acc)
 Loop(s, c, pf, av, rem, bufMax1, tot, cur, o, acc) ==
   LET c0   == s.ch[1]
-      take == Min(Min(c0.flen - c0.ibx, acc.bufMax), rem)
-      g0   == [c0 EXCEPT !.ibx = c0.ibx + Min(c0.flen - c0.ibx, acc.bufMax)]
+      want == Min(c0.flen - c0.ibx, acc.bufMax)
       g1   == IF c.nInt = 2 THEN [s.ch[2] EXCEPT !.ibx = s.ch[2].ibx + Min(s.ch[2].flen - s.ch[2].ibx, bufMax1)] ELSE s.ch[2]
-      s1   == [s EXCEPT !.ch[1] = g0, !.ch[2] = g1, !.allow = 0]
-      rem1 == rem - take
-  IN
-  IF g0.ibx < g0.flen THEN [s |-> s1, ok |-> acc.ok, frames |-> acc.frames, out |-> acc.out]
-  ELSE
-    LET k  == Len(acc.frames) + 1
-        fs_ == FrameStep(s1, c, pf, av, tot, cur, FrameOr(o, k), o.lbrrBits)
-        raw == IF pf # 0 THEN 0 ELSE o.bytes
-        atEnd == raw > 0 /\ fs_.s.ch[1].nfe = fs_.s.ch[1].nfpp
-        pe == IF atEnd THEN PacketEnd(fs_.s, c, raw) ELSE [s |-> fs_.s, out |-> raw]
-        acc1 == [acc EXCEPT !.ok = acc.ok /\ fs_.ok, !.frames = Append(acc.frames, fs_.rec), !.out = pe.out]
-    IN IF rem1 = 0 THEN [s |-> pe.s, ok |-> acc1.ok, frames |-> acc1.frames, out |-> acc1.out]
-       ELSE Loop(pe.s, c, pf, av, rem1, bufMax1, tot, cur + 1, o, acc1)
+  IN LoopA([s EXCEPT !.ch[1] = [c0 EXCEPT !.ibx = c0.ibx + want], !.ch[2] = g1, !.allow = 0],
+           c, pf, av, rem - Min(want, rem), bufMax1, tot, cur, o, acc)
 
 (***************************************************************************)
 (* silk_Encode().  pf = prefillFlag (0, 1, 2), nblk = input length in 10 ms *)
@@ -331,22 +331,32 @@ Loop(s, c, pf, av, rem, bufMax1, tot, cur, o, acc) ==
 (*   per coded frame), out (bytes returned), ready (switchReady), maxBits    *)
 (*   (as left in the control struct), ok (the oracles were legal), paths.   *)
 (***************************************************************************)
-Encode(s0, c, pf, nblk, av, o) ==
-  LET rd(ch) == IF c.redDep = 1 THEN [ch EXCEPT !.ffar = 1] ELSE ch
-      sA  == [s0 EXCEPT !.ch[1] = [rd(s0.ch[1]) EXCEPT !.nfe = 0], !.ch[2] = [rd(s0.ch[2]) EXCEPT !.nfe = 0]]
-      err == CheckControl(c)
-      fail(e, s) == [ret |-> e, s |-> s, frames |-> <<>>, out |-> 0, ready |-> FALSE, maxBits |-> c.maxBits, ok |-> TRUE,
+EncFail(e, s, c) == [ret |-> e, s |-> s, frames |-> <<>>, out |-> 0, ready |-> FALSE, maxBits |-> c.maxBits, ok |-> TRUE,
                      paths |-> <<"none", "none">>]
-  IN
-  IF err # 0 THEN fail(err, sA)
-  ELSE
-  LET sB  == IF c.nInt > sA.nInt THEN [sA EXCEPT !.ch[2] = ChanInit, !.midOnly = sA.midOnly] ELSE sA
-      transition == c.ms # sB.ch[1].pkt \/ sB.nInt # c.nInt
-      sC  == [sB EXCEPT !.nAPI = c.nAPI, !.nInt = c.nInt]
-  IN
-  IF pf # 0 /\ nblk # 1 THEN fail(E_SAMPLES, sC)
-  ELSE IF pf = 0 /\ (nblk < 0 \/ nblk * 10 > c.ms) THEN fail(E_SAMPLES, sC)
-  ELSE
+EncFin(r, c, pf, k0, k1, mb1) ==
+  LET fin(ch) == IF pf # 0 THEN [ch EXCEPT !.csl = 0, !.prefill = 0] ELSE ch IN
+  [ret |-> 0,
+   s |-> [r.s EXCEPT !.nPrev = c.nInt, !.ch[1] = fin(r.s.ch[1]), !.ch[2] = IF c.nInt = 2 THEN fin(r.s.ch[2]) ELSE r.s.ch[2]],
+   frames |-> r.frames, out |-> r.out, ready |-> k0.ready \/ k1.ready, maxBits |-> mb1, ok |-> r.ok, paths |-> <<k0.path, k1.path>>]
+EncRun(sE, c, cc1, pf, nblk, av, o, k0, k1) ==
+  EncFin(IF nblk = 0 THEN [s |-> sE, ok |-> TRUE, frames |-> <<>>, out |-> 0]
+         ELSE Loop(sE, cc1, pf, av, 10 * nblk * sE.ch[1].fs, 10 * nblk * sE.ch[2].fs, IF nblk > 1 THEN nblk \div 2 ELSE 1, 0, o,
+                   [ok |-> TRUE, frames |-> <<>>, out |-> 0, bufMax |-> 10 * nblk * sE.ch[1].fs]),
+         c, pf, k0, k1, cc1.maxBits)
+EncCtl2(sD, c, cc, pf, nblk, av, o, transition, k0, k1, mb1) ==
+  LET nf0 == k0.ch.nfpp
+      clr(ch) == LET a == IF ch.ffar = 1 \/ transition
+                          THEN [ch EXCEPT !.lbrrFlags = [j \in 1..3 |-> IF j <= nf0 THEN 0 ELSE ch.lbrrFlags[j]]] ELSE ch
+                 IN [a EXCEPT !.inDTX = a.useDTX]
+  IN EncRun([sD EXCEPT !.ch[1] = clr(k0.ch), !.ch[2] = IF c.nInt = 2 THEN clr(k1.ch) ELSE sD.ch[2]],
+            c, [cc EXCEPT !.maxBits = mb1], pf, nblk, av, o, k0, k1)
+EncCtl1(sD, c, cc, pf, nblk, av, o, transition, k0, mb0) ==
+  LET k1 == IF c.nInt = 2 THEN ControlEncoder(sD.ch[2], [cc EXCEPT !.maxBits = mb0], sD.allow, k0.ch.fs)
+            ELSE [ch |-> sD.ch[2], ready |-> FALSE, path |-> "none"]
+  IN EncCtl2(sD, c, cc, pf, nblk, av, o, transition, k0, k1, IF k1.ready THEN ReadyMaxBits(mb0, cc.ms) ELSE mb0)
+EncCtl0(sD, c, cc, pf, nblk, av, o, transition, k0) ==
+  EncCtl1(sD, c, cc, pf, nblk, av, o, transition, k0, IF k0.ready THEN ReadyMaxBits(cc.maxBits, cc.ms) ELSE cc.maxBits)
+EncPre(sC, c, pf, nblk, av, o, transition) ==
   LET keep == [lpMode |-> sC.ch[1].lpMode, lpTrans |-> sC.ch[1].lpTrans, lpSaved |-> sC.ch[1].fs]
       pre(ch) == IF pf = 0 THEN ch
                  ELSE LET z == IF pf = 2 THEN [ChanInit EXCEPT !.lpMode = keep.lpMode, !.lpTrans = keep.lpTrans, !.lpSaved = keep.lpSaved]
@@ -354,26 +364,19 @@ Encode(s0, c, pf, nblk, av, o) ==
                       IN [z EXCEPT !.csl = 0, !.prefill = 1]
       sD  == [sC EXCEPT !.ch[1] = pre(sC.ch[1]), !.ch[2] = IF c.nInt = 2 THEN pre(sC.ch[2]) ELSE sC.ch[2]]
       cc  == IF pf # 0 THEN [c EXCEPT !.ms = 10, !.cx = 0] ELSE c
-      k0  == ControlEncoder(sD.ch[1], cc, sD.allow, 0)
-      mb0 == IF k0.ready THEN ReadyMaxBits(cc.maxBits, cc.ms) ELSE cc.maxBits
-      cc0 == [cc EXCEPT !.maxBits = mb0]
-      k1  == IF c.nInt = 2 THEN ControlEncoder(sD.ch[2], cc0, sD.allow, k0.ch.fs) ELSE [ch |-> sD.ch[2], ready |-> FALSE, path |-> "none"]
-      mb1 == IF k1.ready THEN ReadyMaxBits(mb0, cc.ms) ELSE mb0
-      cc1 == [cc EXCEPT !.maxBits = mb1]
-      nf0 == k0.ch.nfpp
-      clr(ch) == LET a == IF ch.ffar = 1 \/ transition
-                          THEN [ch EXCEPT !.lbrrFlags = [j \in 1..3 |-> IF j <= nf0 THEN 0 ELSE ch.lbrrFlags[j]]] ELSE ch
-                 IN [a EXCEPT !.inDTX = a.useDTX]
-      sE  == [sD EXCEPT !.ch[1] = clr(k0.ch), !.ch[2] = IF c.nInt = 2 THEN clr(k1.ch) ELSE sD.ch[2]]
-      fs0 == sE.ch[1].fs
-      tot == IF nblk > 1 THEN nblk \div 2 ELSE 1
-      r   == IF nblk = 0 THEN [s |-> sE, ok |-> TRUE, frames |-> <<>>, out |-> 0]
-             ELSE Loop(sE, cc1, pf, av, 10 * nblk * fs0, 10 * nblk * sE.ch[2].fs, tot, 0, o,
-                       [ok |-> TRUE, frames |-> <<>>, out |-> 0, bufMax |-> 10 * nblk * fs0])
-      fin(ch) == IF pf # 0 THEN [ch EXCEPT !.csl = 0, !.prefill = 0] ELSE ch
-      sF  == [r.s EXCEPT !.nPrev = c.nInt, !.ch[1] = fin(r.s.ch[1]), !.ch[2] = IF c.nInt = 2 THEN fin(r.s.ch[2]) ELSE r.s.ch[2]]
-  IN [ret |-> 0, s |-> sF, frames |-> r.frames, out |-> r.out, ready |-> k0.ready \/ k1.ready, maxBits |-> mb1, ok |-> r.ok,
-      paths |-> <<k0.path, k1.path>>]
+  IN EncCtl0(sD, c, cc, pf, nblk, av, o, transition, ControlEncoder(sD.ch[1], cc, sD.allow, 0))
+EncChk(sA, c, pf, nblk, av, o) ==
+  LET sB  == IF c.nInt > sA.nInt THEN [sA EXCEPT !.ch[2] = ChanInit] ELSE sA
+      transition == c.ms # sB.ch[1].pkt \/ sB.nInt # c.nInt
+      sC  == [sB EXCEPT !.nAPI = c.nAPI, !.nInt = c.nInt]
+  IN
+  IF pf # 0 /\ nblk # 1 THEN EncFail(E_SAMPLES, sC, c)
+  ELSE IF pf = 0 /\ (nblk < 0 \/ nblk * 10 > c.ms) THEN EncFail(E_SAMPLES, sC, c)
+  ELSE EncPre(sC, c, pf, nblk, av, o, transition)
+Encode(s0, c, pf, nblk, av, o) ==
+  LET rd(ch) == IF c.redDep = 1 THEN [ch EXCEPT !.ffar = 1] ELSE ch
+      sA  == [s0 EXCEPT !.ch[1] = [rd(s0.ch[1]) EXCEPT !.nfe = 0], !.ch[2] = [rd(s0.ch[2]) EXCEPT !.nfe = 0]]
+  IN IF CheckControl(c) # 0 THEN EncFail(CheckControl(c), sA, c) ELSE EncChk(sA, c, pf, nblk, av, o)
 
 \* what silk_Encode() writes back for the Opus layer
 AllowOut(s)  == s.allow
